@@ -98,8 +98,18 @@ static int oneRun(int producers, int per, bool block, FILE* out) {
 	std::vector<std::thread> threads;
 	for (int p = 1; p <= producers; p++) {
 		threads.push_back(std::thread([&interp, p, per]() {
+			unsigned x = SEED * 2654435761u + (unsigned)p * 40503u;
+			int burst = 0;
 			for (int k = 1; k <= per; k++) {
 				maybeDelay(10 + p);
+				if (NODELAY && burst-- <= 0) {
+					// mode "burst": 1-4 events back to back, then a pause of 0-60 us, so that the queue keeps running
+					// empty and the stepper keeps going to sleep while other producers are about to enqueue
+					x = x * 1103515245u + 12345u;
+					burst = (x >> 16) % 4;
+					unsigned us = (x >> 8) % 61;
+					if (us) usleep(us);
+				}
 				Event e("p" + std::to_string(p) + "." + std::to_string(k), Event::EXTERNAL);
 				interp.receive(e);
 			}
